@@ -306,6 +306,9 @@ func (c *Check) inboundLookup(rule, lockRule string) {
 	}
 	// patterns
 	isExists := func(e *Expr) bool { // comma-ok of the peers lookup
+		if e.Op == "nn" && e.Args[0].Op == "val" && typeKey(e.Args[0].Typ) == "*peer" {
+			return true // `p := s.peers[k]; p != nil` (only non-nil peers are ever stored)
+		}
 		return e.Op == "ex" && len(e.Args) == 2 && e.Args[0].Op == "val" && isBoolType(e.Typ)
 	}
 	isSplitErr := func(which int) func(e *Expr) bool {
